@@ -152,6 +152,93 @@ def h_stable(ctx, cfg):
             "verdict=%s" % verdict)
 
 
+# ---------------------------------------------------------------------------------------------
+# IEEE-754 leg (symrun/fpconc.py): verdicts that hinge on one rounding error
+# ---------------------------------------------------------------------------------------------
+def _fp_cases(tier):
+  """(name, inputs, constraints, seeds, builder(values) -> denominator coefficient list, expected verdict)
+  Critical filters (a pole exactly ON the unit circle) whose coefficients are short dyadic numbers: every product and sum
+  the step-down recursion needs is exactly representable, so in binary64 - as over the reals - a reflection coefficient
+  of magnitude exactly one must come out and the verdict must be False."""
+  from symrun import fpconc
+  cases = []
+  k, ck = fpconc.dyadic("k", 6 if tier == "quick" else 8, -6 if tier == "quick" else -8, -1)
+  # (1 - z^-1)(1 - k z^-1) = 1 - (1+k) z^-1 + k z^-2   and   (1 + z^-1)(1 - k z^-1) = 1 + (1-k) z^-1 - k z^-2
+  cases.append(("pole-at-z=1,second-order", {"k": k}, ck, [{"k": 0.5}, {"k": -0.75}],
+                lambda a: [1.0, -(1.0 + a["k"]), a["k"]], False))
+  cases.append(("pole-at-z=-1,second-order", {"k": k}, ck, [{"k": 0.5}, {"k": -0.25}],
+                lambda a: [1.0, 1.0 - a["k"], -a["k"]], False))
+  # a non-unit leading coefficient c (an integer up to 255): c - c z^-1, c + c z^-2
+  c, cc = fpconc.dyadic("c", 8, 0, 7)
+  cases.append(("gain-times-(1 - z^-1)", {"c": c}, cc, [{"c": 3.0}, {"c": -10.0}], lambda a: [a["c"], -a["c"]], False))
+  cases.append(("gain-times-(1 + z^-2)", {"c": c}, cc, [{"c": 7.0}], lambda a: [a["c"], 0.0, a["c"]], False))
+  return cases
+
+
+def _fp_run(den_of, values, native=False):
+  from audiolazy import ZFilter
+  from audiolazy.lazy_lpc import parcor_stable
+  den = den_of(values)
+  return parcor_stable(ZFilter([1.0], list(den)))
+
+
+def _fp_case(args):
+  tier, idx, repo = args[:3]
+  procs = args[3] if len(args) > 3 else 8
+  import sys
+  if repo not in sys.path: sys.path.insert(0, repo)
+  from symrun import fpconc
+  name, inputs, cons, seeds, den_of, expected = _fp_cases(tier)[idx]
+  def check(result, vals):
+    return None if result is expected else "parcor_stable gave %r, the filter is critical (expected %r)" % (result, expected)
+  r = fpconc.explore(lambda a: _fp_run(den_of, a), inputs, cons, seeds, check, query_s=60 if tier == "quick" else 600,
+                     max_runs=6 if tier == "quick" else 30, procs=procs)
+  # native replay of every candidate: plain floats, no proxies
+  confirmed = []
+  for v in r["violations"]:
+    got = _fp_run(den_of, v["inputs"], native=True)
+    if got is not expected: confirmed.append(dict(v, native_result=repr(got)))
+    else: r["inconclusive"].append({"clause": "engine", "why": "binary64 counterexample did not reproduce natively", "inputs": v["inputs"]})
+  r["violations"] = confirmed
+  r["name"] = name
+  return r
+
+
+def extra(tier, repo):
+  """-> dict(violations, inconclusive, coverage) merged into the report by symrun.cli"""
+  # the cases run one after the other; the branch negations of each path are solved side by side (16 processes)
+  idxs = list(range(len(_fp_cases(tier)))) if tier != "quick" else [0, 2]
+  rs = [_fp_case((tier, i, repo, 16)) for i in idxs]
+  res = {"violations": [], "inconclusive": [], "coverage": {}}
+  cov = {"cases": [], "queries": {"sat": 0, "unsat": 0, "unknown": 0}, "paths": 0, "solver_time_s": 0.0,
+         "engine": "concolic execution of parcor_stable / parcor / ZFilter algebra on binary64 proxies; branch negations decided "
+                   "by z3 QF_FP (round to nearest even); input classes: dyadic numbers with <= 7-8 significant bits",
+         "assumptions": ["x ** 2 is one correctly rounded multiplication (checked against the platform's pow on every run)"]}
+  for r in rs:
+    for k in cov["queries"]: cov["queries"][k] += r["queries"][k]
+    cov["paths"] += r["paths"]; cov["solver_time_s"] = round(cov["solver_time_s"] + r["solver_s"], 1)
+    cov["cases"].append({"case": r["name"], "paths": r["paths"], "queries": r["queries"], "runs": r["runs"][:6]})
+    for v in r["violations"]:
+      res["violations"].append({"harness": "fp:" + r["name"], "cfg": {"case": r["name"]}, "clause": "critical-filter-is-not-stable(binary64)",
+                                "detail": "%s for inputs %r (native: %s)" % (v["what"], v["inputs"], v["native_result"]),
+                                "model": {k: repr(x) for k, x in v["inputs"].items()}, "what": v["what"]})
+    for i in r["inconclusive"]:
+      res["inconclusive"].append(dict(i, clause="fp:" + r["name"]))
+  res["coverage"] = {"binary64_leg": cov}
+  return res
+
+
+def replay_extra(rp):
+  """./check C11 --replay <file> for a binary64 counterexample: plain floats on the real code"""
+  name = (rp.get("cfg") or {}).get("case")
+  for tier in ("quick", "thorough"):
+    for case in _fp_cases(tier):
+      if case[0] == name:
+        vals = {k: float(v) for k, v in (rp.get("model") or {}).items()}
+        return _fp_run(case[4], vals, native=True) is not case[5]
+  return False
+
+
 def tasks(tier, seed):
   big = tier == "thorough"
   T = []
